@@ -442,13 +442,64 @@ def _u_floor_divide(a, b, out=None, **kw):
         x, y = Sym._co(x), Sym._co(y)
         if x.is_const() and y.is_const():
             return core.CTX.const(x.as_fraction() // y.as_fraction())
-        raise NotImplementedError("floor division of symbolic reals")
+        return core.CTX.const(core.floor_int(x / y))
 
     return _store(_elementwise(fd, a, b), out)
 
 
 def _u_remainder(a, b, out=None, **kw):
     return _store(_elementwise(angle.mod, a, b), out)
+
+
+def _u_fmod(a, b, out=None, **kw):
+    def fm(x, y):  # C fmod: result has the sign of x
+        x, y = Sym._co(core.force(x)), Sym._co(core.force(y))
+        q = x / y
+        k = core.floor_int(q) if bool(q >= 0) else -core.floor_int(-q)
+        return x - y * k
+
+    return _store(_elementwise(fm, a, b), out)
+
+
+def _u_int_valued(f):
+    def g(a, out=None, **kw):
+        return _store(_elementwise(lambda v: core.CTX.const(f(Sym._co(core.force(v)))), a), out)
+
+    return g
+
+
+def _u_hypot(a, b, out=None, **kw):
+    def hy(x, y):
+        x, y = Sym._co(core.force(x)), Sym._co(core.force(y))
+        return (x * x + y * y).sqrt()
+
+    return _store(_elementwise(hy, a, b), out)
+
+
+def _u_copysign(a, b, out=None, **kw):
+    def cs(x, y):
+        x, y = Sym._co(core.force(x)), Sym._co(core.force(y))
+        pos = bool(x >= 0)
+        return (x if pos else -x) if bool(y >= 0) else (-x if pos else x)
+
+    return _store(_elementwise(cs, a, b), out)
+
+
+def _u_signbit(a, out=None, **kw):
+    r = _elementwise(lambda v: bool(Sym._co(core.force(v)) < 0), a)
+    return _store(r.astype(bool) if isinstance(r, _np.ndarray) else r, out)
+
+
+def _u_deg2rad(a, out=None, **kw):
+    return _store(_elementwise(lambda v: Sym._co(core.force(v)) * core.CTX.pi / 180, a), out)
+
+
+def _u_rad2deg(a, out=None, **kw):
+    return _store(_elementwise(lambda v: Sym._co(core.force(v)) * 180 / core.CTX.pi, a), out)
+
+
+def _u_float_power(a, b, out=None, **kw):
+    return _store(_elementwise(lambda x, y: Sym._co(core.force(x)) ** y, a, b), out)
 
 
 def _u_cbrt(a, out=None, **kw):
@@ -520,6 +571,19 @@ _UFUNC = {
     ("isnan", "__call__"): _u_isnan,
     ("floor_divide", "__call__"): _u_floor_divide,
     ("remainder", "__call__"): _u_remainder,
+    ("fmod", "__call__"): _u_fmod,
+    ("floor", "__call__"): _u_int_valued(core.floor_int),
+    ("ceil", "__call__"): _u_int_valued(lambda v: -core.floor_int(-v)),
+    ("trunc", "__call__"): _u_int_valued(lambda v: v.__trunc__()),
+    ("rint", "__call__"): _u_int_valued(core.rint_int),
+    ("hypot", "__call__"): _u_hypot,
+    ("copysign", "__call__"): _u_copysign,
+    ("signbit", "__call__"): _u_signbit,
+    ("deg2rad", "__call__"): _u_deg2rad,
+    ("radians", "__call__"): _u_deg2rad,
+    ("rad2deg", "__call__"): _u_rad2deg,
+    ("degrees", "__call__"): _u_rad2deg,
+    ("float_power", "__call__"): _u_float_power,
     ("cbrt", "__call__"): _u_cbrt,
     ("sqrt", "__call__"): _u_sqrt,
     ("sin", "__call__"): _trig("sin"),
@@ -965,8 +1029,28 @@ class SymNP(types.ModuleType):
 
     def mean(self, a, axis=None, keepdims=False, **kw):
         a = sarr(a, copy=False).view(_np.ndarray)
-        n = a.size if axis is None else a.shape[axis]
+        if axis is None:
+            n = a.size
+        elif isinstance(axis, tuple):
+            n = int(_np.prod([a.shape[i] for i in axis]))
+        else:
+            n = a.shape[axis]
         return _wrap(_np.sum(a, axis=axis, keepdims=keepdims)) / n
+
+    def average(self, a, axis=None, weights=None, **kw):
+        if weights is None:
+            return self.mean(a, axis=axis, **kw)
+        a = sarr(a, copy=False)
+        w = sarr(weights, copy=False)
+        if w.ndim == 1 and a.ndim > 1:
+            ax = 0 if axis is None else axis
+            shp = [1] * a.ndim
+            shp[ax] = w.shape[0]
+            w = w.reshape(shp)
+        return self.sum(a * w, axis=axis) / self.sum(w * _np.ones(a.shape, dtype=int), axis=axis)
+
+    def isscalar(self, x):
+        return isinstance(x, (Sym, LazyAbs, core.LazyRoot)) or _np.isscalar(x)
 
     def prod(self, a, axis=None):
         return _wrap(_np.prod(sarr(a, copy=False).view(_np.ndarray), axis=axis))
